@@ -344,14 +344,17 @@ class SDateTime:
         c = core.CUR
         clk = c.notes.get("clock")
         if clk is None:
-            v = [z3.Int("clock_" + f) for f in _FIELDS]
+            k = c.notes.get("clock_count", 0)        # a harness may drop the clock between calls: the next one is independent
+            c.notes["clock_count"] = k + 1
+            pre = "clock_" if k == 0 else "clock%d_" % (k + 1)
+            v = [z3.Int(pre + f) for f in _FIELDS]
             y, m, d, H, M, S_, us = v
             add(z_valid_date(y, m, d), H >= 0, H <= 23, M >= 0, M <= 59, S_ >= 0, S_ <= 59, us >= 0, us <= 999999)
             clk = cls(*[SInt(x) for x in v], _trusted=True)
             c.notes["clock"] = clk
             # the clock is an input of the path: models of an inconclusive path carry its value to the concrete probe
             for f, x in zip(_FIELDS, v):
-                core.register_input("clock_" + f, x)
+                core.register_input(pre + f, x)
         return clk
 
     @classmethod
